@@ -20,6 +20,7 @@ var (
 	treasury = ammtypes.NewPoolRebalanceTreasury(1)
 	joiner   = sdk.AccAddress([]byte("joiner______________"))
 	commMod  = authtypes.NewModuleAddress(ctypes.ModuleName)
+	ammMod   = authtypes.NewModuleAddress(ammtypes.ModuleName)
 	share    = ammtypes.GetPoolShareDenom(1)
 )
 
@@ -75,6 +76,11 @@ func setup(withShareEntry bool) *state {
 	env.W.SetBal(joiner, usdc, s.wu)
 	env.W.Supply[share] = s.T
 	env.W.SetBal(commMod, share, s.T)
+	// the amm module account is not empty: pool-creation fees (native token) are parked on it
+	dust := vrf.Int("ammModuleElys")
+	vrf.Assume(!dust.IsNegative())
+	env.W.SetBal(ammMod, "uelys", dust)
+	env.W.Supply["uelys"] = dust.Add(sdkmath.NewInt(1000000))
 	if withShareEntry {
 		env.Aprof.SetEntry(ctx, aptypes.Entry{BaseDenom: share, Denom: share, Decimals: 18, CommitEnabled: true, WithdrawEnabled: true})
 	}
@@ -101,6 +107,7 @@ func (s *state) check(label string) {
 	vrf.Assert(supply.Equal(mine.Add(s.other)), "C02 "+label+": supply == sum of accounts' committed shares")
 	vrf.Assert(env.W.BalOf(commMod, share).Equal(supply), "C02 "+label+": the commitment custody account holds every share")
 	vrf.Assert(env.W.BalOf(joiner, share).IsZero(), "C02 "+label+": no liquid (uncommitted) shares are left with the account")
+	vrf.Assert(env.W.SupplyOf("uelys").Equal(env.W.BalOf(ammMod, "uelys").Add(sdkmath.NewInt(1000000))), "C15 "+label+": joins and exits leave the native token parked on the amm module account (and its supply) alone")
 	for _, a := range p.PoolAssets {
 		vrf.Assert(env.W.BalOf(poolAddr, a.Token.Denom).Equal(a.Token.Amount), "C01 "+label+": bank == book for "+a.Token.Denom)
 		dl, _ := env.Amm.GetDenomLiquidity(ctx, a.Token.Denom)
